@@ -270,6 +270,11 @@ F("reset_writes_data", [(ST, "        self._write([])\n        return\n\n    def
 F("insert_loops_over_storage", [(ST, "        for item in items:\n            csv_writer.writerow(item)\n", "        for item in items:\n            for _ in self:\n                pass\n            csv_writer.writerow(item)\n", 0)],
   ["C16"], ["C15", "C12", "C04"])
 
+F("insert_time_position_after_append", [(IDX, "        self._storage_pos_sorted_by_ts.append(len(self._timestamps))\n        self._timestamps.append(time.timestamp())\n",
+   "        self._timestamps.append(time.timestamp())\n        self._storage_pos_sorted_by_ts.append(len(self._timestamps))\n", 0)], ["C06", "C01"])
+F("insert_maps_use_loop_index", [(IDX, "            self._insert_tags(new_idx, point.tags)\n", "            self._insert_tags(idx, point.tags)\n", 0)], ["C06", "C01"])
+F("build_fields_off_by_one", [(IDX, "            self._insert_fields(idx, point.fields)\n", "            self._insert_fields(idx + 1, point.fields)\n", 0)], ["C06", "C01"])
+
 # ----------------------------------------------------------------- silent: behaviour-preserving rewrites (DESIGN 5.2)
 S("roundtrip_unparse", [])
 S("contains_guard_not_eq", [(DB, "if measurement and self._storage._deserialize_measurement(item) != measurement:\n                continue\n            if query(self._storage._deserialize_storage_item(item)):\n                contains = True",
@@ -313,3 +318,34 @@ S("len_iterates_self", [(ST, "        self._handle.seek(0)\n        return sum((
 S("perform_update_not_equal_form", [(DB, "            return point != old_point\n", "            return not point == old_point\n", 0)])
 S("reopen_mode_via_local", [(ST, "            self._handle = open(self._path, mode='r+' if self._mode in ('w', 'w+') else self._mode, encoding=self._encoding, newline=self._newline)",
                              "            reopen_mode = 'r+' if self._mode in ('w', 'w+') else self._mode\n            self._handle = open(self._path, mode=reopen_mode, encoding=self._encoding, newline=self._newline)", 0)])
+
+
+# ----------------------------------------------------------------- property dependencies
+# A breach of a discipline is reported under every property it is a necessary condition of
+# (e.g. a stale-but-valid index breaks C06 and therefore also the index-served answers of C01/C07;
+# a corrupted rewrite breaks C04 and therefore "other points untouched" of C02/C03).  The labels
+# below add those dependent properties to the variants written before the dependency table.
+IDXDEP = ["C01", "C07"]
+RELABEL = {
+    "build_valid_early": (None, ["C01"]),
+    "insert_handler_does_not_invalidate": (None, IDXDEP),
+    "remove_swap_failure_keeps_index": (None, ["C06"] + IDXDEP),
+    "update_invalidates_after_swap": (None, ["C06"] + IDXDEP),
+    "temp_file_default_encoding": (None, ["C01", "C02", "C03", "C05"]),
+    "no_flush_before_copy": (None, ["C01", "C02", "C03"]),
+    "reopen_with_original_mode": (None, ["C01", "C02", "C03"]),
+    "memory_update_helper_write_primary": (None, ["C12", "C06", "C13"] + IDXDEP),
+    "reset_writes_data": (None, ["C15", "C13", "C06", "C11", "C02"] + IDXDEP),
+    "len_counts_lines": (["C07"], []),
+    "insert_time_position_after_append": (None, ["C07"]),
+    "insert_maps_use_loop_index": (None, ["C07"]),
+    "build_fields_off_by_one": (None, ["C07"]),
+    "append_without_seek_end": (["C04", "C16", "C12"], []),
+    "update_rewrites_unconditionally": (None, ["C15"]),
+}
+for _v in V:
+    if _v.name in RELABEL:
+        _e, _a = RELABEL[_v.name]
+        if _e is not None:
+            _v.expect = set(_e)
+        _v.allow = set(_v.allow) | set(_a)
